@@ -2,6 +2,8 @@ package sim
 
 import (
 	"fmt"
+	"hash/fnv"
+	"os"
 	"testing"
 	"testing/cryptotest"
 	"testing/synctest"
@@ -45,7 +47,14 @@ func RunBubble(t *testing.T, seed uint64, o BubbleOpts, body func(s *Sched)) (ou
 	cryptotest.SetGlobalRandom(t, seed)
 	synctest.Test(t, func(t *testing.T) {
 		s := NewSched(seed, o.Stick, o.YieldProb)
-		s.traceOn = o.Trace
+		s.traceOn = o.Trace || os.Getenv("VERIF_TRACE") != ""
+		defer func() {
+			if os.Getenv("VERIF_TRACE") != "" {
+				for i, l := range s.trace {
+					fmt.Println("TRACE", i, l)
+				}
+			}
+		}()
 		simhook.Install(s)
 		start := time.Now()
 		root := s.Spawn("c0", func() { body(s) })
@@ -61,5 +70,27 @@ func RunBubble(t *testing.T, seed uint64, o BubbleOpts, body func(s *Sched)) (ou
 		out.SwitchHash = s.SwitchHash()
 		out.SimTime = time.Since(start)
 	})
+	detNote(fmt.Sprintf("bubble steps=%d switches=%d hash=%x preempts=%d deadlock=%q crashes=%d sim=%v", out.Steps, out.Switches, out.SwitchHash, out.Preempts, out.Deadlock, len(out.Crashes), out.SimTime))
 	return out
+}
+
+// determinism self-test: everything that must be a pure function of (seed, case)
+// is folded into a digest per case (enabled with VERIF_DET=1).
+var detOn = os.Getenv("VERIF_DET") != ""
+var detHash = fnv.New64a()
+
+func detNote(s string) {
+	if detOn {
+		if os.Getenv("VERIF_DET") == "2" {
+			fmt.Println("DETNOTE", s)
+		}
+		detHash.Write([]byte(s))
+		detHash.Write([]byte{0})
+	}
+}
+
+func detTake() uint64 {
+	v := detHash.Sum64()
+	detHash.Reset()
+	return v
 }
